@@ -133,8 +133,8 @@ func (o op) String() string {
 		return fmt.Sprintf("Start(%s,failing=%v)", o.Ctrl, o.Failing)
 	case "StartWatches", "StopWatches":
 		return fmt.Sprintf("%s(%s,%v)", o.Kind, o.Ctrl, o.Watches)
-	case "RemoveInformer":
-		return "RemoveInformer(" + o.GVK + ")"
+	case "RemoveInformer", "FailGet", "FailRemove":
+		return o.Kind + "(" + o.GVK + ")"
 	}
 	return o.Kind + "(" + o.Ctrl + ")"
 }
@@ -142,7 +142,7 @@ func (o op) String() string {
 func genOp(lifecycle bool) *rapid.Generator[op] {
 	return rapid.Custom(func(t *rapid.T) op {
 		ctrl := rapid.SampledFrom(ctrlNames).Draw(t, "ctrl")
-		kinds := []string{"StartWatches", "StartWatches", "StartWatches", "StopWatches", "GetWatches", "IsRunning", "GC", "RemoveInformer"}
+		kinds := []string{"StartWatches", "StartWatches", "StartWatches", "StopWatches", "GetWatches", "IsRunning", "GC", "RemoveInformer", "FailGet", "FailRemove"}
 		if lifecycle {
 			kinds = append(kinds, "Start", "Start", "Stop")
 		}
@@ -156,7 +156,7 @@ func genOp(lifecycle bool) *rapid.Generator[op] {
 			for i := 0; i < n; i++ {
 				o.Watches = append(o.Watches, rapid.SampledFrom(all).Draw(t, "w"))
 			}
-		case "RemoveInformer":
+		case "RemoveInformer", "FailGet", "FailRemove":
 			o.GVK = rapid.SampledFrom(append(append([]string{}, composedKinds...), xrKind(ctrl))).Draw(t, "rmkind")
 		}
 		return o
@@ -196,6 +196,16 @@ func (w *world) exec(o op) string {
 	case "GC":
 		gc := watch.NewGarbageCollector(o.Ctrl, resource.CompositeKind(gvk(xrKind(o.Ctrl))), w.eng)
 		return fmt.Sprint(gc.GarbageCollectWatchesNow(ctx))
+	case "FailGet":
+		w.cache.mu.Lock()
+		w.cache.failGet[gvk(o.GVK)] = 1
+		w.cache.mu.Unlock()
+		return "armed"
+	case "FailRemove":
+		w.cache.mu.Lock()
+		w.cache.failRemove[gvk(o.GVK)] = 1
+		w.cache.mu.Unlock()
+		return "armed"
 	case "RemoveInformer":
 		w.mu.Lock()
 		w.removed[gvk(o.GVK)] = true
@@ -300,6 +310,18 @@ func TestVerifC13Sequential(t *testing.T) {
 				if running[o.Ctrl] && started {
 					interesting = true
 				}
+				if res != "<nil>" {
+					// An injected informer failure made Stop fail half-way: the controller keeps running and which of
+					// its watches were already stopped depends on map order. Re-synchronise the model from the engine's
+					// own listing; the invariants below (no unlisted live handler, at most one, ...) still bind.
+					rec.Label("stop-failed")
+					if !w.eng.IsRunning(o.Ctrl) {
+						t.Fatalf("Stop(%s) returned %q but the controller is no longer reported running; history %v", o.Ctrl, res, hist)
+					}
+					l, _ := w.listed(o.Ctrl)
+					watches[o.Ctrl] = l
+					break
+				}
 				running[o.Ctrl] = false
 				watches[o.Ctrl] = nil
 			case "StartWatches":
@@ -310,7 +332,13 @@ func TestVerifC13Sequential(t *testing.T) {
 					break
 				}
 				if res != "<nil>" {
-					t.Fatalf("StartWatches failed: %s; history %v", res, hist)
+					if !strings.Contains(res, "injected") {
+						t.Fatalf("StartWatches failed: %s; history %v", res, hist)
+					}
+					rec.Label("startwatches-failed")
+					l, _ := w.listed(o.Ctrl)
+					watches[o.Ctrl] = l
+					break
 				}
 				started = true
 				for _, s := range o.Watches {
@@ -329,6 +357,14 @@ func TestVerifC13Sequential(t *testing.T) {
 				}
 			case "StopWatches":
 				if running[o.Ctrl] {
+					if strings.Contains(res, "injected") {
+						rec.Label("stopwatches-failed")
+						interesting = true
+						l, _ := w.listed(o.Ctrl)
+						// a watch whose stop failed must still be listed: it is still live
+						watches[o.Ctrl] = l
+						break
+					}
 					for _, s := range o.Watches {
 						delete(watches[o.Ctrl], s)
 					}
@@ -469,6 +505,9 @@ func TestVerifC13Concurrent(t *testing.T) {
 		var preHist []string
 		for _, o := range pre {
 			o.Failing = false
+			if o.Kind == "FailGet" || o.Kind == "FailRemove" {
+				continue
+			}
 			preHist = append(preHist, o.String()+"="+w.exec(o))
 		}
 		nw := rapid.IntRange(2, 4).Draw(t, "workers")
@@ -480,13 +519,22 @@ func TestVerifC13Concurrent(t *testing.T) {
 			owner[c] = rapid.IntRange(0, nw-1).Draw(t, "owner")
 		}
 		touch := map[string]map[int]bool{}
+		foreignStart := map[string]bool{}
 		startWatches := false
 		for i := range lists {
 			n := rapid.IntRange(1, 4).Draw(t, "nops")
 			for j := 0; j < n; j++ {
 				o := genOp(true).Draw(t, "op")
-				if (o.Kind == "Start" || o.Kind == "Stop") && owner[o.Ctrl] != i {
+				if o.Kind == "Stop" && owner[o.Ctrl] != i {
 					o.Kind = "IsRunning"
+				}
+				if o.Kind == "Start" && owner[o.Ctrl] != i {
+					// Another goroutine may race the owner's Start of the same name; program order then no longer
+					// determines the final state, the consistency invariants still do.
+					foreignStart[o.Ctrl] = true
+				}
+				if o.Kind == "FailGet" || o.Kind == "FailRemove" {
+					o.Kind = "GetWatches" // failure injection is exercised sequentially only
 				}
 				lists[i] = append(lists[i], o)
 				if touch[o.Ctrl] == nil {
@@ -539,7 +587,7 @@ func TestVerifC13Concurrent(t *testing.T) {
 
 		// expected running state from program order of the owner goroutine (prefix, then its list)
 		for _, c := range ctrlNames {
-			want, known := false, true
+			want, known := false, !foreignStart[c]
 			for _, o := range pre {
 				if o.Ctrl == c && o.Kind == "Start" {
 					want = true
